@@ -177,7 +177,7 @@ def smt_set_progress(tier):
         fin = lambda x: z3.And(z3.Not(z3.fpIsNaN(x)), z3.Not(z3.fpIsInf(x)))
         pre = [arg >= -4095, arg <= 4095, mx0 >= 0, mx0 <= 4095, step0 >= 0, z3.Or(mx0 == 0, step0 <= mx0), step0 <= 4095,
                fin(last), fin(now), fin(min_s), fin(max_s), z3.fpGEQ(now, last), z3.fpGEQ(last, z3.FPVal(0.0, F)), z3.fpLEQ(now, z3.FPVal(1e6, F)),
-               z3.fpGEQ(min_s, z3.FPVal(0.0, F)), z3.fpLEQ(min_s, z3.FPVal(10.0, F)), z3.fpGEQ(max_s, min_s), z3.fpLEQ(max_s, z3.FPVal(100.0, F))]
+               z3.fpGEQ(min_s, z3.FPVal(0.0, F)), z3.fpLEQ(min_s, z3.FPVal(10.0, F)), z3.fpGEQ(max_s, z3.FPVal(0.0, F)), z3.fpLEQ(max_s, z3.FPVal(100.0, F))]       # (minimum and maximum interval independent: also min > max)
         interval = z3.fpSub(z3.RNE(), now, last)
         obligations = [
             ("0 <= step <= max afterwards (known maximum)", z3.And(mx0 > 0, z3.Not(z3.And(step1 >= 0, step1 <= mx1)))),
@@ -305,7 +305,9 @@ def _sequence_case(kind, mx, bw, ops, deltas):
         st = BufferedOutputStream()
         ansi = kind in ("ansi", "section", "quiet")
         out = Output(st, AnsiFormatter(forced=True) if ansi else PlainFormatter())
-        target = out.section() if kind == "section" else out
+        target = out.section() if kind in ("section", "plainsection") else out
+        if kind == "plainsection":          # a section of an output without ANSI support behaves like that output
+            kind = "plain"
         if kind == "quiet":
             out.set_quiet(True)
         bar = ProgressBar(target, mx, MIN_INTERVAL)
@@ -593,10 +595,10 @@ def conditions(tier):
     conds = [
         {"name": "smt_percent", "engine": "smt", "fn": smt_percent, "timeout": 200, "replay": _replay_smt, "bounds": "all 0 <= step <= max <= 65535 (z3 QF_BV over the translated _formatter_percent)"},
         {"name": "smt_bar", "engine": "smt", "fn": smt_bar, "timeout": 400, "replay": _replay_smt, "bounds": "all 0 <= step <= max <= 4095, 1 <= bar_width <= 64 (cvc5 QF_BVFP over the translated bar_offset/_formatter_bar)"},
-        {"name": "smt_set_progress", "engine": "smt", "fn": smt_set_progress, "timeout": 900, "replay": _replay_smt, "bounds": "all |argument| <= 4095, 0 <= step <= max <= 4095 (max 0 = unknown), all finite clock readings last <= now <= 1e6, 0 <= min <= max interval"},
+        {"name": "smt_set_progress", "engine": "smt", "fn": smt_set_progress, "timeout": 900, "replay": _replay_smt, "bounds": "all |argument| <= 4095, 0 <= step <= max <= 4095 (max 0 = unknown), all finite clock readings last <= now <= 1e6, minimum interval in [0,10] s and maximum interval in [0,100] s independent of each other"},
     ]
     # (bar widths 1 and 2: more frames than the bar is wide are written within the bound)
-    configs = [("ansi", 10, 10), ("ansi", 3, 10), ("ansi", 0, 10), ("plain", 10, 10), ("plain", 0, 10), ("section", 10, 10), ("quiet", 10, 10), ("plain", 3, 1), ("plain", 10, 2), ("ansi", 3, 2)]
+    configs = [("ansi", 10, 10), ("ansi", 3, 10), ("ansi", 0, 10), ("plain", 10, 10), ("plain", 0, 10), ("section", 10, 10), ("quiet", 10, 10), ("plain", 3, 1), ("plain", 10, 2), ("ansi", 3, 2), ("plainsection", 3, 10)]
     if not quick:
         configs += [("ansi", 1, 1), ("ansi", 50, 28), ("section", 3, 10), ("section", 0, 10), ("section", 3, 1)]
     for kind, mx, bw in configs:
